@@ -21,7 +21,9 @@ Inductive xi :=
 | XRex (w r x b : Z)                  (* emit_rex: a lone REX prefix, applying to the instruction emitted next *)
 | XJccRel (code off : Z)              (* emit_direct_jcc: jcc over the next [off] bytes of code *)
 | XJmpPc (t : Z)                      (* emit_jmp: to the code of eBPF instruction t (displacement fixed up later: C03_jump_fixup) *)
-| XJccPc (code t : Z).                (* emit_jcc: conditionally to the code of eBPF instruction t *)
+| XJccPc (code t : Z)                 (* emit_jcc: conditionally to the code of eBPF instruction t *)
+| XOpSize                             (* a lone 0x66 operand-size prefix, applying to the instruction emitted next *)
+| XBswap (w r : Z).                   (* [REX.W] 0F C8+r: bswap r32 / r64 *)
 
 Definition regs := Z -> Z.
 Definition rset (R : regs) (r v : Z) : regs := fun x => if x =? r then v else R x.
